@@ -118,6 +118,147 @@ def settings() -> dict:
     return s
 
 
+_SIGNUMS = []
+
+
+def probe() -> dict:
+    """settings() for use after EVERY LINE of a traced extraction (write-point discovery of the schedule explorer): the
+    same state read raw - no formatting, no enum conversion, environment hashed - at ~1/10 of the cost; keys as in
+    settings() minus "trace" (a tracer is running when this is used)"""
+    import _signal
+    import codecs
+    import csv
+    import decimal
+    import gc
+    import locale
+    import logging
+    import socket
+    import tarfile
+    import tempfile
+    import warnings
+    import zipfile
+    if not _SIGNUMS:
+        import signal
+        _SIGNUMS.extend(sorted(int(n) for n in signal.valid_signals()))
+    s = {}
+    s["recursionlimit"] = sys.getrecursionlimit()
+    s["switchinterval"] = sys.getswitchinterval()
+    s["int_max_str_digits"] = sys.get_int_max_str_digits() if hasattr(sys, "get_int_max_str_digits") else None
+    s["dont_write_bytecode"] = sys.dont_write_bytecode
+    s["sys.path"] = tuple(sys.path)
+    s["sys.meta_path"] = tuple(map(id, sys.meta_path))
+    s["sys.path_hooks"] = len(sys.path_hooks)
+    s["excepthook"] = id(sys.excepthook)
+    s["unraisablehook"] = id(sys.unraisablehook)
+    s["displayhook"] = id(sys.displayhook)
+    s["threading.excepthook"] = id(threading.excepthook)
+    s["stdio"] = (id(sys.stdin), id(sys.stdout), id(sys.stderr))
+    c = decimal.getcontext()
+    s["decimal"] = (c.prec, c.rounding, c.Emin, c.Emax, c.capitals, c.clamp, repr(c.traps))
+    d = decimal.DefaultContext
+    s["decimal.DefaultContext"] = (d.prec, d.rounding, d.Emin, d.Emax, d.capitals, d.clamp, repr(d.traps))
+    try:
+        s["locale"] = locale.setlocale(locale.LC_ALL)
+    except Exception as e:  # noqa
+        s["locale"] = repr(e)
+    s["socket.timeout"] = socket.getdefaulttimeout()
+    m = os.umask(0o022)
+    os.umask(m)
+    s["umask"] = m
+    try:
+        s["cwd"] = os.getcwd()
+    except OSError as e:
+        s["cwd"] = repr(e)
+    s["environ"] = hash(frozenset(getattr(os.environ, "_data", os.environ).items()))
+    sig = []
+    for n in _SIGNUMS:
+        try:
+            h = _signal.getsignal(n)
+        except Exception:  # noqa
+            continue
+        sig.append(h if isinstance(h, int) or h is None else id(h))
+    s["signals"] = tuple(sig)
+    s["gc"] = (gc.isenabled(), gc.get_threshold(), gc.get_debug())
+    s["tempfile.tempdir"] = tempfile.tempdir
+    s["csv.field_size_limit"] = csv.field_size_limit()
+    s["logging"] = (logging.root.manager.disable, logging.raiseExceptions, id(logging.getLoggerClass()), logging.root.level,
+                    logging.lastResort is not None and logging.lastResort.level)
+    s["warnings"] = (id(warnings.showwarning), id(warnings.formatwarning), getattr(warnings, "_defaultaction", None))
+    lx = sys.modules.get("lxml.etree")
+    if lx is not None:
+        try:
+            s["lxml.default_parser"] = id(lx.get_default_parser())
+        except Exception:  # noqa
+            pass
+    im = sys.modules.get("PIL.Image")
+    if im is not None:
+        s["PIL.MAX_IMAGE_PIXELS"] = im.MAX_IMAGE_PIXELS
+    imf = sys.modules.get("PIL.ImageFile")
+    if imf is not None:
+        s["PIL.LOAD_TRUNCATED_IMAGES"] = imf.LOAD_TRUNCATED_IMAGES
+    s["tarfile"] = (tarfile.ENCODING, id(getattr(tarfile.TarFile, "extraction_filter", None)), tarfile.TarFile.errorlevel,
+                    tarfile.TarFile.format)
+    s["zipfile"] = (getattr(zipfile, "ZIP64_LIMIT", None), getattr(zipfile, "ZIP_FILECOUNT_LIMIT", None), getattr(zipfile, "ZIP_MAX_COMMENT", None))
+    err = []
+    for n in ("strict", "ignore", "replace", "xmlcharrefreplace", "backslashreplace", "namereplace", "surrogateescape", "surrogatepass"):
+        try:
+            err.append(id(codecs.lookup_error(n)))
+        except LookupError:
+            err.append(None)
+    s["codecs.errors"] = tuple(err)
+    return s
+
+
+_CONTAINERS = (dict, list, set, bytearray)
+
+
+class LibState:
+    """module-level and class-level bindings of the LIBRARY'S OWN modules (package prefix `pkg`), cheap enough to be read
+    after every traced line: per namespace the identities of everything bound there (locks excluded: the schedule explorer
+    swaps them) and the sizes of the containers bound there (dict / list / set / bytearray and subclasses: a cache that
+    grows, a scratch buffer that is extended). namespaces are fixed when the object is made (after a warm-up)."""
+
+    def __init__(self, pkg="sharepoint2text", lock_types=()):
+        self.lock_types = tuple(lock_types)
+        self.spaces = []
+        for name, m in sorted((n, m) for n, m in list(sys.modules.items()) if m is not None):
+            if name != pkg and not name.startswith(pkg + "."):
+                continue
+            if ".tests" in name or not isinstance(m, types.ModuleType):
+                continue
+            self.spaces.append((name, m.__dict__))
+            for v in list(m.__dict__.values()):
+                if isinstance(v, type) and getattr(v, "__module__", None) == name:
+                    self.spaces.append((f"{name}:{v.__qualname__}", v.__dict__))
+        # the containers bound there now (one that is bound later shows as a changed binding first)
+        self.containers = [(ns, v) for ns, d in self.spaces for v in list(d.values()) if isinstance(v, _CONTAINERS)]
+
+    def read(self) -> tuple:
+        """(per namespace: hash of the identities bound there - locks included, so not comparable across a lock swap;
+        sizes of the containers)"""
+        return (tuple([hash(tuple(map(id, d.values()))) for _, d in self.spaces]), tuple([len(v) for _, v in self.containers]))
+
+    def changed_spaces(self, a: tuple, b: tuple) -> list:
+        out = [self.spaces[i][0] for i, (x, y) in enumerate(zip(a[0], b[0])) if x != y]
+        out += [self.containers[i][0] + " (container size)" for i, (x, y) in enumerate(zip(a[1], b[1])) if x != y]
+        return sorted(set(out))
+
+    def detail(self) -> dict:
+        lt = self.lock_types
+        out = {}
+        for ns, d in self.spaces:
+            for k, v in list(d.items()):
+                if isinstance(v, lt) or (k.startswith("__") and k.endswith("__")):
+                    continue
+                out[f"{ns}.{k}"] = (v if type(v) in _SCALARS and len(repr(v)) < 80 else id(v), len(v) if isinstance(v, _CONTAINERS) else None)
+        return out
+
+    @staticmethod
+    def changed(a: dict, b: dict) -> dict:
+        """names bound in both details whose binding or container size differs, names that disappeared"""
+        return {k: (a[k], b.get(k, "<deleted>")) for k in a if b.get(k, "<deleted>") != a[k]}
+
+
 def restore(ref: dict) -> None:
     """best effort: put the restorable settings back to `ref` so that one finding does not cascade into the next cases"""
     import csv
